@@ -1216,8 +1216,31 @@ def go_ident_tables():
     return {"keywords": kws, "prefix": prefix, "to_underscore": [a for a, _ in to_us],
             "hex_open": hex_open, "hex_close": hex_close}
 
+def lexer_ident_classes():
+    """the identifier rule of the goml lexer as two character classes (first character, following characters)"""
+    t = _src("crates/lexer/src/lib.rs")
+    m = re.search(r'#\[regex\("\[([^\]]+)\]\[([^\]]+)\]\*"\)\]\s*(\w+),', t)
+    if not m or m.group(3) not in ("Ident", "Identifier", "LowerIdent"):
+        m2 = re.search(r'#\[regex\("\[([^\]]+)\]\[([^\]]+)\]\*"\)\]\s*(\w*Ident\w*)', t)
+        if not m2:
+            raise Exception("lexer: the identifier rule is no longer `[first][rest]*`")
+        m = m2
+    def ranges(cls):
+        out, i = [], 0
+        while i < len(cls):
+            if i + 2 < len(cls) and cls[i + 1] == "-":
+                out.append((ord(cls[i]), ord(cls[i + 2]))); i += 3
+            else:
+                if cls[i] in "\\^":
+                    raise Exception(f"lexer identifier class not understood: [{cls}]")
+                out.append((ord(cls[i]), ord(cls[i]))); i += 1
+        return out
+    return ranges(m.group(1)), ranges(m.group(2)), m.group(3)
+
 def gen_go_keywords():
     d = go_ident_tables()
+    first, rest, tok = lexer_ident_classes()
+    d["lex_first"], d["lex_rest"], d["lex_tok"] = first, rest, tok
     chars = ", ".join("'" + c + "'" for c in d["to_underscore"])
     text = GEN_HEADER.format(src="crates/compiler/src/go/mangle.rs (go_ident, is_go_keyword)") + f"""namespace Goml.Gen
 
@@ -1233,6 +1256,11 @@ def escToUnderscore : List Char := [{chars}]
 /-- every other character becomes `escHexOpen ++ hex(utf8 bytes) ++ escHexClose` -/
 def escHexOpen : List Char := {_lean_chars(d["hex_open"])}
 def escHexClose : Char := '{d["hex_close"]}'
+
+/-- the identifier rule of the goml lexer (crates/lexer/src/lib.rs, token `{d["lex_tok"]}`): code-point ranges of the
+first character and of every following character -/
+def lexerIdentFirst : List (Nat × Nat) := [{", ".join(f"({a}, {b})" for a, b in d["lex_first"])}]
+def lexerIdentRest : List (Nat × Nat) := [{", ".join(f"({a}, {b})" for a, b in d["lex_rest"])}]
 
 end Goml.Gen
 """
